@@ -15,10 +15,11 @@ from sim.disk import SimDisk
 from .c02 import after_list_removal, gen_big_files, gen_files, warm  # noqa: F401
 
 ID = "C01"
+VARY_KNOBS = True  # module-level tuning constants of the library are lowered in some runs (sim.core.lower_tuning_constants)
 VARY_ARGFORM = True  # integer call arguments also arrive as numpy integer scalars
 SHRINK_LISTS = ("ops", "faults", ("files", "nsamps"))
 SHRINK_MIN = {"nchans": 1, "nbits": 1, "gulp": 1}
-SHRINK_SIMPLE = {"consumer": "plain", "allocator": None, "k4": None, "abandon_at": None, "argform": "int", "peek": None, "made_early": None}
+SHRINK_SIMPLE = {"knobs": None, "consumer": "plain", "allocator": None, "k4": None, "abandon_at": None, "argform": "int", "peek": None, "made_early": None, "orphan": None}
 
 
 # ------------------------------------------------------------------ generation
@@ -82,6 +83,14 @@ def gen_plan(rng, N, bounds) -> dict:
     elif r < 0.16 and N >= 1:
         st = rng.randint(0, N - 1)
         op["peek"] = [st, rng.randint(1, N - st)]
+    # who keeps the reader alive: `for blk in FilReader(f).read_plan(...)`, a helper that returns the plan of a reader
+    # it opened, zip() over the plans of several beams - the plan is then the only thing that refers to the reader;
+    # or a shallow copy of the reader was made and dropped while the original carries on
+    r = rng.random()
+    if r < 0.08:
+        op["orphan"] = "plan-outlives-its-reader"
+    elif r < 0.12:
+        op["orphan"] = "copy-of-the-reader-dropped"
     return op
 
 
@@ -266,6 +275,16 @@ def regime(op, N) -> tuple:
 
 
 # ------------------------------------------------------------------ execution
+def _plan_of(rd, op, kw):
+    """The plan object of `rd`; when this frame returns, the caller's own references are all that keep `rd` alive."""
+    import gc
+
+    gen = iter(rd.read_plan(gulp=nint(op["gulp"]), start=nint(op["start"]), nsamps=nint(op["nsamps"]), skipback=nint(op["skipback"]), quiet=True, **kw))
+    del rd
+    gc.collect()
+    return gen
+
+
 def execute(sc, ctx) -> None:
     from sigpyproc.readers import FilReader
 
@@ -289,8 +308,20 @@ def execute(sc, ctx) -> None:
         kw = {}
         if op["allocator"]:
             kw["allocator"] = make_allocator(op["allocator"], ctx)
+        rd = reader
+        if op.get("orphan") and not sc["faults"]:
+            import copy
+            import gc
+
+            if op["orphan"] == "plan-outlives-its-reader":
+                rd = FilReader(fs.paths)  # nothing but the plan will refer to this one
+            else:
+                dup = copy.copy(reader)
+                del dup
+            gc.collect()
+            ctx.probe("orphan:" + op["orphan"])
         try:
-            return iter(reader.read_plan(gulp=nint(op["gulp"]), start=nint(op["start"]), nsamps=nint(op["nsamps"]), skipback=nint(op["skipback"]), quiet=True, **kw))
+            return _plan_of(rd, op, kw)
         except Exception as e:  # noqa: BLE001
             def deferred(_e=e):
                 raise _e
